@@ -44,6 +44,11 @@ assert not sh('git -C /repo status --porcelain').stdout.strip(), '/repo not clea
 results = {}
 try:
     a = sh(f'git -C /repo apply {dst}/patch.diff')
+    if a.returncode != 0:
+        # /repo has moved on since the worktree was made (hook / fix commits): fall back to a three-way merge of the same change
+        a = sh(f'git -C /repo apply --3way {dst}/patch.diff')
+        sh('git -C /repo reset -q')
+        print('   (patch applied with --3way)')
     assert a.returncode == 0, a.stderr
     for c in checks:
         t0 = time.time()
